@@ -267,13 +267,15 @@ func (w *fsWallet) getSignerForAddr(ctx context.Context, from ethtypes.Address0x
 func (w *fsWallet) GetWalletFile(ctx context.Context, addr ethtypes.Address0xHex) (keystorev3.WalletFile, error) {
 
 	addrString := addr.String()
+	// The cache lookup reads the item expiry without synchronization, so look up
+	// and extend under the wallet lock to keep concurrent signers from racing on it.
+	w.mux.Lock()
 	cached := w.signerCache.Get(addrString)
 	if cached != nil {
 		cached.Extend(w.signerCacheTTL)
+		w.mux.Unlock()
 		return cached.Value().(keystorev3.WalletFile), nil
 	}
-
-	w.mux.Lock()
 	primaryFilename, ok := w.addressToFileMap[addr]
 	w.mux.Unlock()
 	if !ok {
